@@ -1416,6 +1416,21 @@ def r16(R):
             if ("param", "incoming") not in d:
                 resets.append(c)
     R.floor("C01-R16", "executor arms that restart from fresh bindings", len(resets), 1)
+    # a subquery is its own scope: in the Subquery arm *every* evaluation of the inner plan restarts from fresh bindings
+    nsub = 0
+    for c in ex.calls():
+        if c.key != ex.key or len(c.args) < 4:
+            continue
+        in_sub = any(cd.get("kind") == "variant" and cd.get("variant") == "Subquery" and cd.get("truth") is True for cd in G.conditions(ex, c.bb))
+        if not in_sub:
+            continue
+        nsub += 1
+        d = P.derives(prog, ex, F.op_place(c.args[3])["l"]) if F.op_place(c.args[3]) else set()
+        fresh = ("param", "incoming") not in d
+        R.ob("C01-R16", "subquery-own-scope:%d" % nsub, "the Subquery arm evaluates the inner plan from the unit solution, not from the incoming rows", fresh, where=ex.where(c.ln),
+             detail=None if fresh else "a variable the subquery does not project is local to it; started from the outer rows, an outer variable of the same name "
+             "constrains the inner scans: `?s <name> ?o . { SELECT ?s WHERE { ?s <knows> ?o } }` loses its rows")
+    R.floor("C01-R16", "evaluations of the inner plan in the Subquery arm", nsub, 1)
     for c in resets:
         same = F.op_place(c.args[2]) is not None and ex.alias_root(c.args[2]) == ctx_l
         R.ob("C01-R16", "reset-keeps-context", "the arm that restarts from fresh bindings passes its own execution context on", same, where=ex.where(c.ln),
